@@ -789,7 +789,6 @@ var bceTable = map[string]string{
 	"(*packets.FrameParser).GetICMPInfo|$1.Layers[1]":       "only evaluated to format the message of the default branch; len(Layers) >= 2 after Parse succeeded",
 	"(*packets.FrameParser).GetIPLayer|$1.Layers[0]":        "guarded by len(p.Layers) < expectedLayerCount just above (constant 2)",
 	"(*packets.FrameParser).GetTransportLayer|$1.Layers[1]": "guarded by len(p.Layers) < expectedLayerCount just above (constant 2)",
-	"(*sack.sackDriver).findMatchingProbe|$1.sendTimes[$2]": "only called by getRTTFromRelSeq after relSeq was range-checked against MaxTTL; slice length int(MaxTTL)+1 (C19 R19.2 decides that length)",
 	"common.TracerouteParallel$1|$1[$2.TTL]":                "probe validated against MaxTTL (R03.1); table length int(MaxTTL)+1 (R03.2)",
 	"common.TracerouteSerial|$1[$2.TTL]":                    "probe validated against MaxTTL (R03.1); table length int(MaxTTL)+1 (R03.2)",
 }
@@ -871,10 +870,10 @@ func checkBCE(c *Ctx, roots []*ssa.Function) {
 			continue
 		}
 		seen[k] = true
-		if why, ok := bceTable[k]; ok {
-			R.OK("R09.3", "bce#"+k, token.NoPos, fnName, "unproven by the compiler, reviewed: "+why)
-		} else if ok, why := proveUpperBound(c, c.P.Func(fnName), lbr); ok {
+		if ok, why := proveUpperBound(c, c.P.Func(fnName), lbr); ok {
 			R.OK("R09.3", "bce#"+k, token.NoPos, fnName, "unproven by the compiler, upper bound established by the checker: "+why)
+		} else if why, ok := bceTable[k]; ok {
+			R.OK("R09.3", "bce#"+k, token.NoPos, fnName, "unproven by the compiler, reviewed: "+why)
 		} else {
 			o := core.Obligation{}
 			_ = o
